@@ -149,8 +149,13 @@ func checkFields3(w *W, v *spec.V3, L int, rng *rand.Rand, pairs *atomic.Int64) 
 		// the fully spelled canonical vector with exactly two tokens exchanged (a decoder that reads a complete
 		// vector by position keeps its layout when the two tokens have the same width)
 		s6 := oneTransposition(&va, D, rng)
+		// ... and in one of the orders other tools write (sorted by name / token, reversed, groups as blocks)
+		no := namedOrders(va.Tokens(D))
+		s7 := join3("CVSS:"+spec.V3Versions[v.Ver], no[rng.IntN(len(no))])
+		no = namedOrders(v.Tokens(L))
+		s8 := join3("CVSS:"+spec.V3Versions[v.Ver], no[rng.IntN(len(no))])
 		var first string
-		for i, s := range []string{s1, s2, s3, s4, s5, s6} {
+		for i, s := range []string{s1, s2, s3, s4, s5, s6, s7, s8} {
 			w.Eval(1)
 			o, err, pan := lib.DecodeAuto(k, s)
 			if pan != nil || err != nil || o.IsNil() {
@@ -328,6 +333,18 @@ func runC10(r *Run) int {
 			}
 			s := render3(v, L, sh)
 			checkEncode(w, lib.Kind3(D), s, v.Canonical(D))
+			if rng.IntN(4) == 0 {
+				// the same metrics, every Not Defined one of the decoder's level spelled, in one of the orders other tools
+				// write (sorted by name / token, reversed, groups exchanged as blocks, rotated)
+				va := *v
+				for mi := spec.E; mi < spec.V3LevelEnd(D); mi++ {
+					if va.M[mi] < 0 {
+						va.M[mi] = 0
+					}
+				}
+				no := namedOrders(va.Tokens(D))
+				checkEncode(w, lib.Kind3(D), join3("CVSS:"+spec.V3Versions[v.Ver], no[rng.IntN(len(no))]), v.Canonical(D))
+			}
 			if rng.IntN(6000) == 0 {
 				w.Sample(map[string]interface{}{"input": s, "decoder": lib.Kind3(D).String(), "canonical": v.Canonical(D)})
 			}
@@ -458,6 +475,10 @@ func runC14(r *Run) int {
 				}
 			}
 			toks = strings.Split(oneTransposition(&va, L, rng), "/")[1:]
+			if nt.Load()%8 == 0 {
+				no := namedOrders(va.Tokens(L))
+				toks = no[rng.IntN(len(no))]
+			}
 		}
 		s := join3(prefix, toks)
 		proj := func(level int) string {
